@@ -36,7 +36,7 @@ def scratch():
     return d
 
 
-def run_worker(cfg, scenarios, workdir, name, timeout=600, binary="worker"):
+def run_worker(cfg, scenarios, workdir, name, timeout=None, binary="worker"):
     """Runs one worker process over a list of scenarios (restarting after a proxy crash).
     Returns (trace_path, info). Trace ids are the 1-based positions in `scenarios`."""
     scen = os.path.join(workdir, name + ".scen.ndjson")
@@ -46,6 +46,7 @@ def run_worker(cfg, scenarios, workdir, name, timeout=600, binary="worker"):
             f.write(json.dumps(s) + "\n")
     trace = os.path.join(workdir, name + ".trace.ndjson")
     open(trace, "w").close()
+    timeout = timeout or (60 + len(scenarios) // 5)
     done = 0
     info = {"crashes": [], "dead": [], "unrealised": 0, "harness_errors": []}
     part = 0
